@@ -84,6 +84,10 @@ pub struct Dec<'a> {
     strings: Vec<String>,
     pub annots: Vec<Annot>,
     pub annotate: bool,
+    /// the size form met at every sequence position, in decode order (true = unknown-length form)
+    pub forms: Vec<bool>,
+    /// for every deduplicated string read: was it written in full (true) or as a back-reference (false)
+    pub dedup_forms: Vec<bool>,
     depth: usize,
 }
 
@@ -91,7 +95,7 @@ const MAX_DEPTH: usize = 4000;
 
 impl<'a> Dec<'a> {
     pub fn new(buf: &'a [u8]) -> Self {
-        Dec { buf, pos: 0, end: buf.len(), strings: Vec::new(), annots: Vec::new(), annotate: false, depth: 0 }
+        Dec { buf, pos: 0, end: buf.len(), strings: Vec::new(), annots: Vec::new(), annotate: false, forms: Vec::new(), dedup_forms: Vec::new(), depth: 0 }
     }
 
     pub fn pos(&self) -> usize {
@@ -186,6 +190,7 @@ impl<'a> Dec<'a> {
     fn dedup_string(&mut self) -> Result<String, DecErr> {
         let off = self.pos;
         let n = self.vi()?;
+        self.dedup_forms.push(n >= 0);
         if n < 0 {
             self.note(off, AnnotKind::StringId, n as i64);
             let id = -(n as i64);
@@ -209,6 +214,7 @@ impl<'a> Dec<'a> {
         let n = self.vi()?;
         self.note(off, AnnotKind::Count, n as i64);
         let mut items = Vec::new();
+        self.forms.push(n == -1);
         if n == -1 {
             loop {
                 let off = self.pos;
@@ -267,6 +273,7 @@ impl<'a> Dec<'a> {
                 let t = resolve(n);
                 self.decode_inner(&t)
             }
+            Ty::VarU32 => Ok(Val::U(self.vu()? as u128)),
             Ty::U8 => Ok(Val::U(self.be(1)?)),
             Ty::U16 => Ok(Val::U(self.be(2)?)),
             Ty::U32 => Ok(Val::U(self.be(4)?)),
@@ -652,6 +659,13 @@ pub fn ref_decode(ty: &Ty, bytes: &[u8]) -> Result<(Val, usize), DecErr> {
     let mut d = Dec::new(bytes);
     let v = d.decode(ty)?;
     Ok((v, d.pos))
+}
+
+/// decode and also return the size form met at every sequence position (for byte-exact re-encoding of foreign data)
+pub fn ref_decode_forms(ty: &Ty, bytes: &[u8]) -> Result<(Val, usize, Vec<bool>, Vec<bool>), DecErr> {
+    let mut d = Dec::new(bytes);
+    let v = d.decode(ty)?;
+    Ok((v, d.pos, d.forms, d.dedup_forms))
 }
 
 /// decode and return the annotated parse (offsets of counts, sizes, tags …) for the tamper operators
